@@ -342,7 +342,7 @@ PROPS = {
     "C14": {
         "modules": ["Sheens.Props.C14"],
         "theorems": [],
-        "facts": [],
+        "facts": ["routing_sites"],
         "runs": {
             "quick": [("crew", ["-profile", "crew", "-n", "1500"]),
                       ("mcrewgen", ["-profile", "mcrew", "-n", "150"], {"overlay": MCREW_OVERLAY})],
@@ -370,7 +370,7 @@ PROPS = {
     "C16": {
         "modules": ["Sheens.Props.C16"],
         "theorems": [],
-        "facts": [],
+        "facts": ["mcrew_write_under_lock", "mcrew_write_before_memory"],
         "runs": {
             "quick": [("mcrewgen", ["-profile", "mcrew", "-n", "400"], {"overlay": MCREW_OVERLAY})],
             "thorough": [("mcrewgen", ["-profile", "mcrew", "-n", "1500"], {"overlay": MCREW_OVERLAY})],
@@ -383,7 +383,7 @@ PROPS = {
     "C17": {
         "modules": ["Sheens.Props.C17"],
         "theorems": [],
-        "facts": [],
+        "facts": ["timers_fire_by_identity"],
         "runs": {
             "quick": [("timersgen", ["-profile", "mcrew", "-n", "120"], {"overlay": MCREW_TIMERS_OVERLAY}),
                       ("siotimers", ["-n", "120"]), ("siotimers", ["-n", "40"], {"runner": c17_race_probe})],
